@@ -76,7 +76,25 @@ func checkC08(c *Ctx) Meta {
 				ok = true
 			}
 		}
-		// errors propagate (an unverifiable proof aborts)
+		// errors propagate (an unverifiable proof aborts): the caller picks proofs[bestProofIndex] by the index of
+		// the best quality, so the result must stay index-aligned with proofs — a failed verification may not be
+		// skipped and the loop carried on to a successful return
+		for _, cl := range callsInByName(g, "VerifiedQuality") {
+			key2 := "getQualities:unverifiable-proof-aborts"
+			h := cl.Parent()
+			r := reach(h, cl, errorEdgeCut(h, cl, false), nil)
+			var bad *ssa.Return
+			for _, ret := range returnsOf(h) {
+				if r(ret) && isNilErrorReturn(ret) {
+					bad = ret
+				}
+			}
+			if bad == nil {
+				c.OK("C08-TARGET", key2, c.Pos(cl.Pos()), "no successful return is reachable from the failure edge of VerifiedQuality: qualities[i] belongs to proofs[i]")
+			} else {
+				c.Bad("C08-TARGET", key2, c.Pos(bad.Pos()), "after a proof fails VerifiedQuality the function can still return successfully: the qualities handed back no longer line up with the proofs by index, and the caller picks proofs[bestProofIndex] of another space")
+			}
+		}
 		if ok {
 			c.OK("C08-TARGET", key, c.Pos(g.Pos()), "quality[i] = proofs[i].Proof.VerifiedQuality(PubKeyHash(proofs[i].PublicKey), challenge, filter, slot, height)")
 		} else {
